@@ -64,7 +64,8 @@ CLAIMS = {
                 "[minLOS, maxLOS]). The two genuine defects it found (unguarded Cardano-branch store, uncovered "
                 "partition at the faces of the cube) were repaired in /repo commit 5c07f2c; for a point at distance s along a kept trajectory, the three "
                 "line-of-sight-frame components of R n + s t (s sin(theta) cos(phi), s sin(theta) sin(phi) + R cos(elev), "
-                "s cos(theta) + R sin(elev)) by formula. It does NOT decide "
+                "s cos(theta) + R sin(elev)) by formula; after a second throw on the same object every accessor and the point "
+                "along the trajectory describe the second throw only (history rule; memoising decorators modelled). It does NOT decide "
                 "exactness of the inverse CDF, spot distance, beta from explicit vectors or the frame rotations at s>0.",
         "technique": "value-flow graph + interval, unit, length-class and truth-table predicate analyses",
     },
@@ -94,7 +95,9 @@ CLAIMS = {
                 "length and altitude on the stated domain (interval analysis + sign of every monomial of the "
                 "radicand minus R^2); the five closed forms of the statement modulo algebra; homogeneity degrees; "
                 "agreement of the duplicated tau mass / lifetime constants with each other and with the reference "
-                "values. It does NOT decide the exponential distribution or monotonicity (values).",
+                "values; in compute() the emergence angle, speed and Lorentz factor the tau and decay stages work on are the "
+                "stored columns of the same events, unmodified between the stages. It does NOT decide the exponential "
+                "distribution or monotonicity (values).",
         "technique": "value-flow graph + unit inference, interval analysis, polynomial normal form against reference formulas",
     },
     "C08": {
@@ -239,7 +242,8 @@ CLAIMS = {
                 "x/y selection, two-point formula); plus an exhaustive "
                 "DATA AUDIT over all ~550 000 nodes of all shipped tables (strictly increasing axes, CDF rows "
                 "non-decreasing from 0 to 1 within 1e-15, exit probabilities <= 1, smallest reachable tau energy above "
-                "the tau mass, axis names/order). It does NOT decide round-trip equality for arbitrary grids, slicing "
+                "the tau mass, axis names/order); a sub-grid taken with selectors cuts data, axes and names with the same "
+                "selection and keeps an axis exactly under the test that counts the selector as given. It does NOT decide round-trip equality for arbitrary grids, slicing "
                 "values or numerical agreement of vec_1d_interp with np.interp.",
         "technique": "value-flow graphs of the sibling reader / writer functions (sequence normal form, affine index "
                      "positions, key agreement) + identity of stored arrays; data audit of shipped files (labelled, "
@@ -271,7 +275,8 @@ CLAIMS = {
                 "SNR and noise helpers, centres are arange+df/2, inclusive band edges on the table's centre column, "
                 "with a DATA AUDIT of the waveform table (one shared 5,15,... grid); order independence of the radio "
                 "stage and the SNR; the field model against its formula (two Gaussians in the off-axis angle, each with "
-                "its own width squared, hence finite for every fitted width). It does NOT decide finiteness in general or values.",
+                "its own width squared, hence finite for every fitted width); the radio stage and the SNR function modify none "
+                "of their arguments (a second evaluation on the same batch sees the same fields). It does NOT decide finiteness in general or values.",
         "technique": "polynomial degrees / ratios of final values on the value-flow graph (store-to-load forwarding, "
                      "path assumptions), truth-table predicates, length-class (equivariance) typing; data audit",
     },
